@@ -62,8 +62,8 @@ CMB_THREAD_LOCAL struct cmi_mempool observer_tagpool
 
 /*
  * guard_queue_check - Test if heap_tag *a should go before *b. If so, return true.
- * Ranking higher priority (dsortkey) before lower, FIFO based on entry time,
- * then in key (memory address) order.
+ * Ranking higher priority (isortkey) before lower, FIFO based on entry time,
+ * then in order of arrival.
  */
 static bool guard_queue_check(const struct cmi_heap_tag *a,
                               const struct cmi_heap_tag *b)
@@ -85,7 +85,9 @@ static bool guard_queue_check(const struct cmi_heap_tag *a,
         return false;
     }
 
-    if (a->key < b->key) {
+    /* Same priority and entry time: order of arrival (sequence number in the
+     * last payload word), not memory address, to keep runs reproducible */
+    if ((uint64_t)(a->item[3]) < (uint64_t)(b->item[3])) {
         return true;
     }
 
@@ -138,11 +140,12 @@ int64_t cmb_resourceguard_wait(struct cmb_resourceguard *rgp,
 
     const double entry_time = cmb_time();
     const int64_t priority = cmb_process_priority(pp);
+    const uint64_t arrival = ((struct cmi_hashheap *)rgp)->item_counter + 1u;
     const uint64_t key = cmi_hashheap_enqueue((struct cmi_hashheap *)rgp,
                                               (void *)pp,
                                               (void *)demand,
                                               (void *)ctx,
-                                              NULL,
+                                              (void *)arrival,
                                               (uint64_t)pp,
                                               entry_time,
                                               priority);
